@@ -127,6 +127,11 @@ func vfRunConnScenario(cfg vfConnScenarioCfg) (events []map[string]interface{}, 
 	node.Tracer = tr
 
 	driverTimeout := 40 * time.Millisecond
+	if cfg.Kind == "wtimeout" {
+		// WriteTimeout well below Timeout (the documented relation): answers slower than the one and faster
+		// than the other must still reach their callers
+		driverTimeout = 300 * time.Millisecond
+	}
 	var nmu sync.Mutex
 	withheld := map[int][]vfConnPendingAnswer{} // per stream: answers never sent (unless the id is seen again)
 	var nodeRecv, nodeSent, recvHandled, writesOK int64
@@ -205,6 +210,8 @@ func vfRunConnScenario(cfg vfConnScenarioCfg) (events []map[string]interface{}, 
 			delay = time.Duration(nrng.Intn(3000)) * time.Microsecond
 		case "late":
 			delay = driverTimeout + time.Duration(10+nrng.Intn(60))*time.Millisecond
+		case "slow":
+			delay = time.Duration(60+nrng.Intn(60)) * time.Millisecond
 		}
 		nmu.Unlock()
 		awg.Add(1)
@@ -262,6 +269,9 @@ func vfRunConnScenario(cfg vfConnScenarioCfg) (events []map[string]interface{}, 
 	obs := &vfConnObserver{tr: tr}
 	s, d, err := vfSingleNodeSession(node, cfg.Proto, func(c *ClusterConfig) {
 		c.Timeout = driverTimeout
+		if cfg.Kind == "wtimeout" {
+			c.WriteTimeout = 25 * time.Millisecond
+		}
 		c.StreamObserver = obs
 		// requests that go through Conn.query (the path of the driver's own system queries) must put the
 		// same frame on the wire as the independent encoder expects: no page size, no timestamp
@@ -298,6 +308,13 @@ func vfRunConnScenario(cfg vfConnScenarioCfg) (events []map[string]interface{}, 
 	sc.BindSession(s)
 	host := s.ring.allHosts()[0]
 	conn, err := s.connect(s.ctx, host, h)
+	if err != nil && strings.Contains(err.Error(), "no response to connection startup") {
+		s.connCfg.ConnectTimeout = 10 * time.Second
+		conn, err = s.connect(s.ctx, host, h)
+		if err != nil && strings.Contains(err.Error(), "no response to connection startup") {
+			return vfHandshakeUnansweredTrace(cfg.Kind, cfg.Proto), ""
+		}
+	}
 	if err != nil {
 		return nil, "connect: " + err.Error()
 	}
@@ -383,6 +400,7 @@ func vfRunConnScenario(cfg vfConnScenarioCfg) (events []map[string]interface{}, 
 			xerr   error
 			echoed string
 		)
+		t0 := time.Now()
 		ok, dump := vfWithin(8*time.Second, func() {
 			defer func() {
 				// a panic in the caller's goroutine is an outcome the property does not allow
@@ -428,7 +446,13 @@ func vfRunConnScenario(cfg vfConnScenarioCfg) (events []map[string]interface{}, 
 			tr.Emit("env_stuck", "what", "call", "req", id, "dump", dump[:vfMin(len(dump), 4000)])
 			return
 		}
-		tr.Emit("ret", "req", id, "conn", connID, "outcome", vfConnOutcome(xerr, echoed, tok), "echo", echoed, "tok", tok)
+		outcome := vfConnOutcome(xerr, echoed, tok)
+		if el := time.Since(t0); outcome == "timeout" && el < driverTimeout*9/10 {
+			// "no response within the timeout period" reported before that period can have passed (machine
+			// load only ever makes it later): the outcome was decided by something else than the Timeout
+			tr.Emit("env_early_timeout", "req", id, "ms", int(el/time.Millisecond), "timeout_ms", int(driverTimeout/time.Millisecond))
+		}
+		tr.Emit("ret", "req", id, "conn", connID, "outcome", outcome, "echo", echoed, "tok", tok)
 	}
 
 	// ---- optional exhaustion prefix: occupy all but k ids with never-answered requests
@@ -516,6 +540,8 @@ func vfRunConnScenario(cfg vfConnScenarioCfg) (events []map[string]interface{}, 
 					fate = "err"
 				case x < 40 && cfg.Kind == "badflag":
 					fate = "cflag"
+				case x < 65 && cfg.Kind == "wtimeout":
+					fate = "slow"
 				}
 				cancelAfter := time.Duration(-1)
 				if x := crng.Intn(100); x < 4 {
@@ -634,7 +660,7 @@ func TestVfConnStress(t *testing.T) {
 	callers := vfEnvInt("VF_CALLERS", 8)
 	per := vfEnvInt("VF_PERCALL", 12)
 	kinds := []string{"plain", "srvclose", "extclose", "writefail", "buildfail", "exhaust", "coalesce", "unsol", "midbody", "mixed", "badflag",
-		"hb", "hbdead", "hbwritefail", "hbextclose"}
+		"hb", "hbdead", "hbwritefail", "hbextclose", "wtimeout"}
 	rng := rand.New(rand.NewSource(vfSeed()))
 	var wg sync.WaitGroup
 	sem := make(chan struct{}, 8)
